@@ -97,6 +97,10 @@ func (r *Request) ConnectionID() int {
 // Supported options: WithResponseCode, WithDiagnosticMessage, WithMatchedDN
 func (r *Request) NewModifyResponse(opt ...Option) *ModifyResponse {
 	opts := getResponseOpts(opt...)
+	if opts.withResponseCode == nil {
+		// same default as NewResponse
+		opts.withResponseCode = intPtr(ResultUnwillingToPerform)
+	}
 	return &ModifyResponse{
 		GeneralResponse: r.NewResponse(
 			WithApplicationCode(ApplicationModifyResponse),
